@@ -410,6 +410,55 @@ class Inliner:
         visit(expr)
         return out
 
+    def _needs_statement_form(self, expr: ast.AST) -> bool:
+        for c in ast.walk(expr):
+            if isinstance(c, ast.Call):
+                r = self.resolve(c)
+                if r is not None and not r[0].expr_only:
+                    return True
+        return False
+
+    def _hoistable_boolops(self, expr: ast.AST) -> List[ast.BoolOp]:
+        """`a and b` / `a or b` evaluated unconditionally whose LATER operands call a helper that needs statement form."""
+        out: List[ast.BoolOp] = []
+
+        def visit(n):
+            if isinstance(n, (ast.Lambda, ast.ListComp, ast.SetComp, ast.DictComp, ast.GeneratorExp)):
+                return
+            if isinstance(n, ast.BoolOp):
+                if any(self._needs_statement_form(v) for v in n.values[1:]):
+                    out.append(n)
+                    return
+                visit(n.values[0])
+                return
+            if isinstance(n, ast.IfExp):
+                visit(n.test)
+                return
+            for c in ast.iter_child_nodes(n):
+                visit(c)
+        visit(expr)
+        return out
+
+    def lower_boolop(self, st: ast.stmt, node: ast.BoolOp) -> List[ast.stmt]:
+        """t = a; if t: t = b      for `a and b`  (if not t for `or`): the short circuit written out, so that b can take statements."""
+        tmp = self._fresh("cond", self.own_names | self.temps | self.introduced)
+        self.temps.add(tmp)
+
+        def assign(v):
+            return ast.Assign(targets=[ast.Name(id=tmp, ctx=ast.Store())], value=v)
+        out: List[ast.stmt] = [assign(node.values[0])]
+        for v in node.values[1:]:
+            test: ast.expr = ast.Name(id=tmp, ctx=ast.Load())
+            if isinstance(node.op, ast.Or):
+                test = ast.UnaryOp(op=ast.Not(), operand=test)
+            out.append(ast.If(test=test, body=[assign(v)], orelse=[]))
+        _replace(st, node, ast.Name(id=tmp, ctx=ast.Load()))
+        for n in out:
+            ast.copy_location(n, st)
+            ast.fix_missing_locations(n)
+        self.done += 1
+        return out + [st]
+
     def expand_comprehension(self, st: ast.stmt, comp) -> List[ast.stmt]:
         """[f(x) for x in it if c]  ->  acc = []; for x in it: if c: acc.append(f(x))   (the statement then reads acc)"""
         gen = comp.generators[0]
@@ -521,6 +570,9 @@ class Inliner:
             headers = [it.context_expr for it in st.items]
         else:
             headers = []
+        for hd in headers:
+            for bo in self._hoistable_boolops(hd):
+                return self.lower_boolop(st, bo)
         for hd in headers:
             for comp in self._hoistable_comps(hd):
                 return self.expand_comprehension(st, comp)
